@@ -42,6 +42,7 @@ def quiet : Op → Bool
   | .set _ _ => true
   | .add _ _ => true
   | .del _ => true
+  | .unset _ => true
   | .wh c => informational c
   | _ => false
 
@@ -55,6 +56,7 @@ theorem decision_quiet (C : Cfg Z) (cf : Bool) (pre rest : List Op) (h : Hdr) (h
     | set k v => simpa [decision, hops, hop] using ih (hset h k v) hq.2
     | add k v => simpa [decision, hops, hop] using ih (hadd h k v) hq.2
     | del k => simpa [decision, hops, hop] using ih (hdel h k) hq.2
+    | unset k => simpa [decision, hops, hop] using ih (hnil h k) hq.2
     | wh c =>
       have hi : informational c = true := by simpa [quiet] using hq.1
       simpa [decision, hi, hops, hop] using ih h hq.2
@@ -109,6 +111,7 @@ theorem writesOf_quiet (pre rest : List Op) (hq : pre.all quiet = true) : writes
     | set k v => simpa [writesOf] using ih hq.2
     | add k v => simpa [writesOf] using ih hq.2
     | del k => simpa [writesOf] using ih hq.2
+    | unset k => simpa [writesOf] using ih hq.2
     | wh c => simpa [writesOf] using ih hq.2
 
 theorem writesOf_copyBody (f : Bool) (cs : List Bytes) : writesOf (copyBody f cs) = cs := by
